@@ -1,6 +1,7 @@
 -- FAMILIES: polyi=TF.Drv.PolyInterp.polyi
 import TF.Drv.Proto
 import TF.Model.PolyInterp
+import TF.Drv.PolyInterpApi
 /-! driver handler for the family `polyi` (C08): `polyi <op> <b|x> args…`; field elements are canonical values
 (`b`: naturals, `x`: triples `(c0;c1;c2)`); polynomials are printed normalised. Anything above the size limit,
 or given in compact pseudo-random form `R:…`, is answered with `skip` (the implementation-side oracles decide). -/
@@ -163,10 +164,16 @@ def handle (op : String) (args : List Arg) : Option String :=
 
 end
 
-def polyi : Handler
+def polyiCore : Handler
   | op, .sym "b" :: args => handle bCodec op args
   | op, .sym "x" :: args => handle xCodec op args
   | "barycentric_evaluate", [.sym "bx", cw, x] => handle xCodec "barycentric_evaluate" [cw, x]
   | _, _ => none
+
+/-- the ops above, then the ops added by the API audit (`TF/Drv/PolyInterpApi.lean`) -/
+def polyi : Handler := fun op args =>
+  match polyiCore op args with
+  | some r => some r
+  | none => TF.Drv.PolyInterpApi.handleApi op args
 
 end TF.Drv.PolyInterp
